@@ -205,6 +205,22 @@ CHECKS = {
              "expressions raise in numba and are not obligations. The legacy module ops/whit.py (imported by nothing) is not analysed. "
              "No axioms (all lemmas closed under the global context).",
         technique="Coq proof of verification conditions generated from the source by a translator (lia) + hand-proved cursor invariants + bounds-checked runs"),
+    "C13": dict(
+        cat="translation_validation",
+        text="The property is a correspondence between two executions of one source, so it is decided by running both: each of the 35 njit / "
+             "guvectorize programs of hdc.algo.ops compiled by numba versus its own code object run by the Python interpreter, on shared "
+             "in-contract inputs (all dtypes of each gufunc signature, values up to the int16 limit, gaps, all-missing, cubes, groups, "
+             "zones), integers equal (+-1 at ties), float64 to 1e-9, float32 to single precision; the parallel cube smoother repeatedly on "
+             "a multi-row cube; digamma / gammainc / ndtri from nopython code vs scipy.special bit for bit. Theorems (Props/C13.v, Z) "
+             "cover the part that is semantics rather than rounding: the Mann-Kendall counters and the int16 autocorrelation sums stay "
+             "inside int64 for every series up to 2^32 steps, so fixed-width and unbounded integers agree. Partial: numba and LLVM are "
+             "not modelled; agreement of the floating-point code is observed, not proved.",
+        ref="7 (C13)",
+        note="Trusted: Coq kernel for the three integer-width theorems (no axioms); tools/impl/interp.py (substitutes C semantics for "
+             "log/sqrt/pow domain errors and float division by zero, np.round into integer arrays, numba's arange and literal-integer "
+             "powers, prange = range - listed in the evidence). Two genuine differences were found and repaired (autocorr_1d_int, mean_grp: "
+             "int16 arithmetic wrapped in the interpreted source).",
+        technique="compiled-vs-interpreted differential run over all 35 programs + Coq proofs (nia/lia) that integer accumulators fit int64"),
     "C06": dict(
         cat="proof",
         text="Theorems (Props/C06.v, reals): from the variational characterisation of C01 (not from the elimination order) the Whittaker "
